@@ -59,6 +59,11 @@ def subsidy(height):
     return (50 * 100000000) >> (height // 210000) if height // 210000 < 64 else 0
 
 
+# decimal rendering edges: powers of ten and their neighbours, 9-digit group boundaries with zero middle groups, i64/u64 limits
+DEC_EDGE = [10**18, 10**18 + 1, 10**18 - 1, 10**19, 10**19 + 10**9, 12 * 10**17 + 5, 10**18 + 10**8 - 1, 10**18 + 10**9, 5 * 10**18 + 42, 10**9, 10**9 - 1, 10**10,
+            10**17, 2**63, 2**63 - 1, 2**63 + 1, 2**64 - 1, 2**64 - 10**9, 2**32, 2**32 - 1, 2**53, 2**53 + 1, 100000000000000000, 1000000000000000001]
+
+
 def gen_chain(r, coin, n, max_txs=4, max_io=3, segwit=True, odd_widths=True, auxpow_mix=True, start_height=0, genesis=None, scripts=None, big=None, extreme_values=False):
     """n linked blocks with correct merkle roots.  Returns [Block]."""
     blocks = []
@@ -90,7 +95,7 @@ def gen_chain(r, coin, n, max_txs=4, max_io=3, segwit=True, odd_widths=True, aux
                     tx, i = rb(r, 32), r.randrange(4)
                 ins.append((tx, i, rb(r, r.choice([0, 1, 72, 107, 253, 300])), r.choice([0xffffffff, 0xfffffffe, r.randrange(1 << 32)])))
             nout = r.randrange(0 if r.random() < 0.03 else 1, max_io + 1)
-            outs = [(r.choice([0, 1, 546, r.randrange(21 * 10**14), r.randrange(1 << 64) if extreme_values else r.randrange(10**15)]) if r.random() < 0.2 else r.randrange(10**10), (scripts or spk)(r, coin)) for _ in range(nout)]
+            outs = [(r.choice([0, 1, 546, r.randrange(21 * 10**14), (r.choice(DEC_EDGE) if r.random() < 0.5 else r.randrange(1 << 64)) if extreme_values else r.randrange(10**15)]) if r.random() < 0.2 else r.randrange(10**10), (scripts or spk)(r, coin)) for _ in range(nout)]
             tx = K.Tx(ins, outs, version=r.choice([1, 2]), lock=r.choice([0, 0, r.randrange(1 << 32)]))
             if odd_widths and r.random() < 0.15:
                 tx.w_in = r.choice([3, 5, 9])
@@ -101,7 +106,7 @@ def gen_chain(r, coin, n, max_txs=4, max_io=3, segwit=True, odd_widths=True, aux
             if odd_widths and r.random() < 0.15:
                 tx.w_script[("i", r.randrange(len(ins)))] = r.choice([3, 5, 9])
             if segwit and r.random() < 0.35:
-                flag = r.choice([1, 1, 1, 3, 0, 2])
+                flag = r.choice([1, 1, 1, 3, 0, 2, 8, 9, 0x80, 0xff])
                 stacks = [[rb(r, r.choice([0, 1, 32, 72, 253, 600])) for _ in range(r.randrange(0, 4))] for _ in ins]
                 tx.segwit = (r.choice([1, 1, 1, 3, 5, 9]) if odd_widths else 1, flag, stacks)
             txs.append(tx)
